@@ -144,8 +144,20 @@ Fixpoint merge_tree (t : itree) : itree :=
 
 Definition set_text (s : str) (t : itree) : itree :=
   match t with INode i (PText _) k => INode i (PText s) k | _ => t end.
-Definition set_text_at (x : nid) (s : str) (l : list itree) : list itree :=
-  map (fun t => if has_id x t then set_text s t else t) l.
+Fixpoint set_text_first (x : nid) (s : str) (l : list itree) : list itree :=
+  match l with
+  | [] => []
+  | t :: r => if has_id x t then set_text s t :: r else t :: set_text_first x s r
+  end.
+(* directly before x; a text is never put directly before an element-like node this way *)
+Definition g_before (x : nid) (n : itree) (t : itree) : option (itree * unit) :=
+  match t with
+  | INode i p kids =>
+      match find (has_id x) kids with
+      | Some xk => if is_itext n && negb (is_itext xk) then None else Some (INode i p (ins_before x n kids), tt)
+      | None => None
+      end
+  end.
 
 (* ---- updates ---- *)
 Inductive upd :=
@@ -168,25 +180,27 @@ Definition take_loose (n : nid) (w : world) : option (itree * world) :=
 Definition add_loose (t : itree) (w : world) : world := {| docs := docs w; loose := loose w ++ [t] |}.
 
 (* move the parentless n into the kid list of x's parent *)
-Definition a_move (n : nid) (g : itree -> itree -> option (itree * unit)) (w : world) : world :=
+Definition a_move (n : nid) (ok : itree -> bool) (g : itree -> itree -> option (itree * unit)) (w : world) : world :=
   match take_loose n w with
-  | Some (t, w1) => match w_rw (g t) w1 with Some (w2, _) => w2 | None => w end
+  | Some (t, w1) => if ok t then match w_rw (g t) w1 with Some (w2, _) => w2 | None => w end else w
   | None => w
   end.
+Definition any_node (_ : itree) : bool := true.
 
 Definition apply_a (u : upd) (w : world) : world :=
   match u with
   | UNewText fresh s => add_loose (INode fresh (PText s) []) w
   | UNewTag _ fresh ns name => add_loose (INode fresh (PTag ns name []) []) w
-  | UAddFollowing x n => a_move n (fun t => at_parent_of x (ins_after x t)) w
-  | UTextAddPreceding x n => a_move n (fun t => at_parent_of x (ins_before x t)) w
-  | UAddPrevious x n => a_move n (fun t => at_parent_of x (ins_before x t)) w
-  | UBindData p n => a_move n (fun t => at_node p (fun q => INode (iid q) (ipayload q) (t :: ikids q))) w
-  | UAppendEl p n => a_move n (fun t => at_node p (fun q => INode (iid q) (ipayload q) (ikids q ++ [t]))) w
+  | UAddFollowing x n => a_move n any_node (fun t => at_parent_of x (ins_after x t)) w
+  | UTextAddPreceding x n => a_move n any_node (g_before x) w
+  | UAddPrevious x n => a_move n any_node (g_before x) w
+  | UBindData p n => a_move n is_itext (fun t => at_node p (fun q => INode (iid q) (ipayload q) (t :: ikids q))) w
+  | UAppendEl p n =>
+      a_move n (fun t => negb (is_itext t)) (fun t => at_node p (fun q => INode (iid q) (ipayload q) (ikids q ++ [t]))) w
   | UDetach x => match w_rw (g_extract x) w with Some (w1, t) => add_loose t w1 | None => w end
   | USetContent x s =>
-      if is_loose w x then {| docs := docs w; loose := set_text_at x s (loose w) |}
-      else match w_rw (at_parent_of x (set_text_at x s)) w with Some (w1, _) => w1 | None => w end
+      if is_loose w x then {| docs := docs w; loose := set_text_first x s (loose w) |}
+      else match w_rw (at_parent_of x (set_text_first x s)) w with Some (w1, _) => w1 | None => w end
   | UMerge p => match w_rw (at_node p merge_tree) w with Some (w1, _) => w1 | None => w end
   end.
 
